@@ -591,14 +591,18 @@ def signatures(op, dim, odim, tier, r):
     return r.sample(allc, k)
 
 
-def run(items, tier, seed, res, prop, judge_values=True, judges=(), backends=("numpy", "awkward")):
-    """items: [(op name, dim)]"""
+def run(items, tier, seed, res, prop, judge_values=True, judges=(), backends=("numpy", "awkward"), half=None):
+    """items: [(op name, dim)]; half in (0, 1): only every second sampled signature (the other half runs in a twin shard
+    in the other Awkward registration mode, so that every operation is seen in both modes in every run)"""
     for opname, dim in items:
         op = C.OPS[opname]
         r = gen.rng(seed, prop, "sweep", opname, dim)
         odims = op.other_dims(dim) if op.other_dims else (None,)
         for odim in odims:
-            for (s_self, s_other, order) in signatures(op, dim, odim, tier, r):
+            sigs_ = signatures(op, dim, odim, tier, r)
+            if half is not None and len(sigs_) > 1:
+                sigs_ = sigs_[half::2]
+            for (s_self, s_other, order) in sigs_:
                 for attempt in range(6):
                     # a batch needs N operand sets that are all representable in this signature (the exactly-zero
                     # velocity, for one, only is with z-longitudinal storage): redraw rather than lose the signature
@@ -794,6 +798,9 @@ def _judge_values(op, dim, res, prop, sig, var, cases, exp, units, gain, out, ex
             if meta.get("recname") != want:
                 res.violation(f"{prop}/result-record-name variant={_vclass(name)} op={op.name}",
                               {"sig": sig, "variant": name, "got": meta.get("recname"), "expected": want, "fields": meta.get("fields")})
+            elif meta.get("is_vector") is False:
+                res.violation(f"{prop}/result-is-not-a-vector variant={_vclass(name)} op={op.name}",
+                              {"sig": sig, "variant": name, "type": type(out).__name__, "fields": meta.get("fields")})
         else:
             cls = type(out).__name__
             want = ("MomentumNumpy" if e0.momentum else "VectorNumpy") + f"{e0.dim}D"
